@@ -13,9 +13,11 @@ package txpool
 import (
 	"fmt"
 	"math/big"
+	"math/rand"
 	"runtime/debug"
 	"sort"
 	"strings"
+	"sync"
 	"time"
 
 	"github.com/youchainhq/go-youchain/common"
@@ -60,6 +62,7 @@ type Op struct {
 
 // ---------------------------------------------------------------- stub chain
 type chain struct {
+	mu        sync.RWMutex
 	statedb   *state.StateDB
 	head      *types.Block
 	blocks    map[common.Hash]*types.Block
@@ -67,17 +70,40 @@ type chain struct {
 	processor core.Processor
 }
 
-func (c *chain) Processor() core.Processor                             { return c.processor }
-func (c *chain) CurrentBlock() *types.Block                            { return c.head }
-func (c *chain) GetBlock(hash common.Hash, number uint64) *types.Block { return c.blocks[hash] }
+func (c *chain) Processor() core.Processor { return c.processor }
+func (c *chain) CurrentBlock() *types.Block {
+	c.mu.RLock()
+	defer c.mu.RUnlock()
+	return c.head
+}
+func (c *chain) GetBlock(hash common.Hash, number uint64) *types.Block {
+	c.mu.RLock()
+	defer c.mu.RUnlock()
+	return c.blocks[hash]
+}
 func (c *chain) StateAt(common.Hash, common.Hash, common.Hash) (*state.StateDB, error) {
+	c.mu.RLock()
+	defer c.mu.RUnlock()
 	return c.statedb, nil
+}
+
+// advance installs a new head block and its state.
+func (c *chain) advance(b *types.Block, st *state.StateDB) {
+	c.mu.Lock()
+	defer c.mu.Unlock()
+	c.blocks[b.Hash()] = b
+	c.statedb = st
+	c.head = b
 }
 func (c *chain) SubscribeChainHeadEvent(ch chan<- core.ChainHeadEvent) event.Subscription {
 	return c.feed.Subscribe(ch)
 }
 
-func (c *chain) put(b *types.Block) { c.blocks[b.Hash()] = b }
+func (c *chain) put(b *types.Block) {
+	c.mu.Lock()
+	defer c.mu.Unlock()
+	c.blocks[b.Hash()] = b
+}
 
 func mkBlock(number uint64, parent common.Hash, extra string, txs []*types.Transaction) *types.Block {
 	h := &types.Header{Number: new(big.Int).SetUint64(number), ParentHash: parent, GasLimit: 1000000, Extra: []byte(extra),
@@ -305,17 +331,15 @@ func (w *world) apply(op *Op) (res map[string]interface{}) {
 				}
 			}
 		}
-		old := w.ch.head
+		old := w.ch.CurrentBlock()
 		blk := mkBlock(old.NumberU64()+1, old.Hash(), "verif-main", txs)
-		w.ch.put(blk)
 		if op.N > w.sn[a-1] {
 			w.last = &lastBlock{blk: blk, a: a, pn: w.sn[a-1], pb: w.sb[a-1], txs: mined}
 		} else {
 			w.last = nil
 		}
 		w.sn[a-1], w.sb[a-1] = op.N, op.B
-		w.ch.statedb = w.newState()
-		w.ch.head = blk
+		w.ch.advance(blk, w.newState())
 		w.pool.VerifReset(old.Header(), blk.Header())
 		res["mined"] = mined
 	case "ResetBack":
@@ -325,10 +349,8 @@ func (w *world) apply(op *Op) (res map[string]interface{}) {
 		}
 		l := w.last
 		sib := mkBlock(l.blk.NumberU64(), l.blk.ParentHash(), "verif-sibling", nil)
-		w.ch.put(sib)
 		w.sn[l.a-1], w.sb[l.a-1] = l.pn, l.pb
-		w.ch.statedb = w.newState()
-		w.ch.head = sib
+		w.ch.advance(sib, w.newState())
 		w.pool.VerifReset(l.blk.Header(), sib.Header())
 		res["reinj"] = l.txs
 		w.last = nil
@@ -361,6 +383,9 @@ func run(env *drive.Env) error {
 	if env.OptInt("log", 0) == 0 {
 		logging.Verbosity(logging.LvlCrit)
 	}
+	if env.Opt("mode", "") == "stress" {
+		return stress(env)
+	}
 	var beh []Op
 	for env.Next(&beh) {
 		if len(beh) == 0 || beh[0].Op != "Init" {
@@ -383,6 +408,123 @@ func run(env *drive.Env) error {
 		}
 		w.close()
 		beh = nil
+	}
+	return nil
+}
+
+// stress is the concurrent driver of the thorough tier: per round, goroutines submit remote and local transactions through
+// the asynchronous entry points, move the head, change the price floor, run the eviction pass and read the views, all at
+// once; after the round the driver waits for quiescence (VerifSync: a reorg run that starts after everything requested
+// before) and samples the views.  Head changes are child blocks only (no re-injection).  Built with -race by the check.
+func stress(env *drive.Env) error {
+	traces := env.OptInt("traces", 20)
+	rounds := env.OptInt("rounds", 25)
+	limits := [][4]int{{1, 3, 1, 2}, {2, 3, 2, 2}, {1, 2, 1, 1}, {2, 4, 2, 3}}
+	for b := 0; b < traces; b++ {
+		rnd := rand.New(rand.NewSource(env.Seed*1000 + int64(b)))
+		lim := limits[b%len(limits)]
+		na := 2 + b%2
+		accts := []int{}
+		for a := 1; a <= na; a++ {
+			accts = append(accts, a)
+		}
+		init := &Op{Op: "Init", Accts: accts, AS: lim[0], GS: lim[1], AQ: lim[2], GQ: lim[3], Bump: 10}
+		env.Begin(b)
+		w := newWorld(init)
+		// every transaction of the alphabet is created up front: the driver's own tables are read-only afterwards
+		var alphabet []T
+		for a := 1; a <= na; a++ {
+			for n := 0; n <= 3; n++ {
+				for p := 1; p <= 2; p++ {
+					for _, v := range []int{0, 2} {
+						t := T{A: a, N: n, P: p, V: v}
+						w.tx(t)
+						alphabet = append(alphabet, t)
+					}
+				}
+			}
+		}
+		env.Emit(map[string]interface{}{"ev": "Init", "args": map[string]interface{}{"na": w.na, "as": lim[0], "gs": lim[1], "aq": lim[2],
+			"gq": lim[3], "bump": 10}, "obs": w.obs()})
+		for r := 0; r < rounds; r++ {
+			var wg sync.WaitGroup
+			stop := make(chan struct{})
+			pick := func(rr *rand.Rand) *types.Transaction { return txCache[alphabet[rr.Intn(len(alphabet))]] }
+			seeds := []int64{rnd.Int63(), rnd.Int63(), rnd.Int63(), rnd.Int63(), rnd.Int63()}
+			doReset, doPrice, doEvict, doLocal := rnd.Intn(2) == 0, rnd.Intn(3) == 0, rnd.Intn(4) == 0, rnd.Intn(4) == 0
+			for g := 0; g < 2; g++ {
+				wg.Add(1)
+				go func(seed int64) {
+					defer wg.Done()
+					rr := rand.New(rand.NewSource(seed))
+					for i := 0; i < 4; i++ {
+						if rr.Intn(2) == 0 {
+							w.pool.AddRemotes(types.Transactions{pick(rr)})
+						} else {
+							w.pool.AddRemotes(types.Transactions{pick(rr), pick(rr)})
+						}
+					}
+				}(seeds[g])
+			}
+			if doLocal {
+				wg.Add(1)
+				go func(seed int64) {
+					defer wg.Done()
+					rr := rand.New(rand.NewSource(seed))
+					w.pool.AddLocal(txCache[T{A: 1 + rr.Intn(na), N: rr.Intn(4), P: 1, V: 0}])
+				}(seeds[2])
+			}
+			if doReset {
+				wg.Add(1)
+				go func(seed int64) {
+					defer wg.Done()
+					rr := rand.New(rand.NewSource(seed))
+					a := 1 + rr.Intn(na)
+					old := w.ch.CurrentBlock()
+					blk := mkBlock(old.NumberU64()+1, old.Hash(), "verif-stress", nil)
+					w.sn[a-1], w.sb[a-1] = rr.Intn(4), []int{1, 4}[rr.Intn(2)]
+					w.ch.advance(blk, w.newState())
+					w.pool.VerifReset(old.Header(), blk.Header())
+				}(seeds[3])
+			}
+			if doPrice {
+				wg.Add(1)
+				go func(seed int64) {
+					defer wg.Done()
+					w.pool.SetGasPrice(big.NewInt(1 + seed%2))
+				}(seeds[4])
+			}
+			if doEvict {
+				wg.Add(1)
+				go func() {
+					defer wg.Done()
+					w.pool.VerifEvictPass()
+				}()
+			}
+			// a reader, as the RPC and the miner would
+			rdone := make(chan struct{})
+			go func() {
+				defer close(rdone)
+				for {
+					select {
+					case <-stop:
+						return
+					default:
+					}
+					w.pool.Content()
+					w.pool.Pending()
+					w.pool.Stats()
+					w.pool.Nonce(w.keys[1].Addr)
+				}
+			}()
+			wg.Wait()
+			close(stop)
+			<-rdone
+			w.pool.VerifSync()
+			env.Emit(map[string]interface{}{"ev": "Sample", "args": map[string]interface{}{"demoting": doReset || doPrice, "round": r},
+				"res": map[string]interface{}{}, "obs": w.obs()})
+		}
+		w.close()
 	}
 	return nil
 }
